@@ -269,6 +269,16 @@ def judge(ck, v, r, b, subjects):
         ck.violation(vec_key("regexp does not compile:", v), rec); return
     im = impl_set(r, n)
     rec["impl"] = {"rx": r["rx"], "matches": show(im, subj, extra)}
+    if v["fam"] == "unanch" and "s_acc" in r and not v["malformed"]:
+        # the same pattern without EntireString: the expression searches (ShGlob!SearchSetOf)
+        ck.cov["evaluations"] += 1
+        want = frozenset(v["accs"])
+        got = frozenset(r["s_acc"]) if not (r.get("s_err") or r.get("s_compile_err")) else None
+        if got != want:
+            ck.violation(vec_key("search (no EntireString) differs:", v),
+                         dict(rec, search={"rx": r.get("s_rx"), "error": r.get("s_err") or r.get("s_compile_err"),
+                                           "impl": sorted(got) if got is not None else None, "spec": sorted(want)}))
+            return
     if im == sp and (b is None or b == on(sp)):
         if v.get("nontrivial"):
             ck.sample({"pattern": pat, "mode": modekey(v["mode"]), "regexp": r["rx"],
